@@ -120,6 +120,55 @@ func batchOps(fn *ssa.Function) map[string]map[string][]ssa.Instruction {
 				}
 				continue
 			}
+			// a method value of a context struct that carries the batch (`w := &writer{batch: b}; m.Range(w.write)`)
+			for _, a := range call.Common().Args {
+				mc, isMC := a.(*ssa.MakeClosure)
+				if !isMC || len(mc.Bindings) != 1 {
+					continue
+				}
+				m := core.FuncValueTarget(mc)
+				wr, _ := mc.Fn.(*ssa.Function)
+				if m == nil || wr == nil || m == wr || len(m.Params) == 0 || core.PkgOf(m) != ledgerPkg {
+					continue
+				}
+				al, isAlloc := core.Strip(mc.Bindings[0]).(*ssa.Alloc)
+				if !isAlloc {
+					continue
+				}
+				for _, rf := range *al.Referrers() {
+					fa, isFA := rf.(*ssa.FieldAddr)
+					if !isFA || fa.X != ssa.Value(al) || !strings.HasSuffix(fa.Type().String(), "storage.Batch") {
+						continue
+					}
+					var stored ssa.Value
+					for _, rr := range *fa.Referrers() {
+						if st, isSt := rr.(*ssa.Store); isSt && st.Addr == ssa.Value(fa) {
+							stored = st.Val
+						}
+					}
+					if stored == nil {
+						continue
+					}
+					fld := fa.Field
+					recvPar := m.Params[0]
+					isCtxBatch := func(rv ssa.Value) bool {
+						_, _, base, ok := core.FieldOf(rv)
+						if !ok || core.Strip(base) != ssa.Value(recvPar) {
+							return false
+						}
+						u, isU := rv.(*ssa.UnOp)
+						if !isU {
+							return false
+						}
+						f2, isF2 := u.X.(*ssa.FieldAddr)
+						return isF2 && f2.Field == fld
+					}
+					for _, ko := range helperBatchWritesPred(m, nil, isCtxBatch, 0, map[*ssa.Function]bool{fn: true}, nil) {
+						batchOfSite[call] = stored
+						add(ko[0], ko[1], call)
+					}
+				}
+			}
 			// a helper of the ledger package that receives the batch and writes through it (also through helpers of its own)
 			g := core.StaticCallee(call)
 			if g == nil || len(g.Blocks) == 0 || core.PkgOf(g) != ledgerPkg || g == fn {
@@ -157,6 +206,12 @@ func helperBatchWrites(g *ssa.Function, p *ssa.Parameter, depth int, seen map[*s
 // helperBatchWritesEnv: kinds maps parameter indices of g to the storage kind of the key the caller passes there
 // (a helper such as restorePrevValue(batch, key, prev) writes under a key it receives).
 func helperBatchWritesEnv(g *ssa.Function, p *ssa.Parameter, depth int, seen map[*ssa.Function]bool, kinds map[int]string) [][2]string {
+	return helperBatchWritesPred(g, p, nil, depth, seen, kinds)
+}
+
+// helperBatchWritesPred: the batch is identified by parameter p or, when p is nil, by isBatch (a field of a context
+// struct the function receives, see batchOps).
+func helperBatchWritesPred(g *ssa.Function, p *ssa.Parameter, isBatch func(ssa.Value) bool, depth int, seen map[*ssa.Function]bool, kinds map[int]string) [][2]string {
 	if depth > 3 {
 		return nil
 	}
@@ -170,6 +225,9 @@ func helperBatchWritesEnv(g *ssa.Function, p *ssa.Parameter, depth int, seen map
 	isP := func(rv ssa.Value) bool {
 		if rv == nil {
 			return false
+		}
+		if p == nil {
+			return isBatch != nil && isBatch(rv)
 		}
 		if core.Strip(rv) == ssa.Value(p) || core.VarIdentity(rv) == ssa.Value(p) || core.Mentions(rv, func(v ssa.Value) bool { return v == ssa.Value(p) }) {
 			return true
@@ -742,7 +800,6 @@ func C12(c *Ctx) {
 	}
 }
 
-
 // revertJournalWhole (R12.6 / R11.6): every path through revertJournal reaches the PrevStates loop and the CodeChanged test.
 func (c *Ctx) revertJournalWhole(rule string) {
 	r := c.R
@@ -750,30 +807,30 @@ func (c *Ctx) revertJournalWhole(rule string) {
 	if rj == nil {
 		return
 	}
-		isStatesLoop := func(in ssa.Instruction) bool {
-			rg, ok := in.(*ssa.Range)
-			return ok && core.Mentions(rg.X, fieldNamed("PrevStates"))
+	isStatesLoop := func(in ssa.Instruction) bool {
+		rg, ok := in.(*ssa.Range)
+		return ok && core.Mentions(rg.X, fieldNamed("PrevStates"))
+	}
+	isCodeTest := func(in ssa.Instruction) bool {
+		ifi, ok := in.(*ssa.If)
+		if !ok {
+			return false
 		}
-		isCodeTest := func(in ssa.Instruction) bool {
-			ifi, ok := in.(*ssa.If)
-			if !ok {
-				return false
+		f := core.CondFact(ifi.Cond)
+		return f.Kind == core.FBool && f.Field == "CodeChanged"
+	}
+	for _, step := range []struct {
+		name string
+		p    InstrPred
+	}{{"the loop over PrevStates", isStatesLoop}, {"the test of CodeChanged", isCodeTest}} {
+		rs := core.Reach([]core.Point{core.EntryOf(rj)}, step.p, nil)
+		skipped := false
+		for _, ret := range core.Returns(rj) {
+			if rs.Has(ret) {
+				skipped = true
 			}
-			f := core.CondFact(ifi.Cond)
-			return f.Kind == core.FBool && f.Field == "CodeChanged"
 		}
-		for _, step := range []struct {
-			name string
-			p    InstrPred
-		}{{"the loop over PrevStates", isStatesLoop}, {"the test of CodeChanged", isCodeTest}} {
-			rs := core.Reach([]core.Point{core.EntryOf(rj)}, step.p, nil)
-			skipped := false
-			for _, ret := range core.Returns(rj) {
-				if rs.Has(ret) {
-					skipped = true
-				}
-			}
-			r.Check(len(sites(rj, step.p)) > 0 && !skipped, rule, "revertJournal: every path reaches "+step.name, c.P.Pos(rj.Pos()), "no return before it",
-				"a path through revertJournal returns before "+step.name+": for such a journal entry (e.g. an account created in the block) the storage keys / code written by the block are not removed, and the rolled-back state differs from the state of that height")
-		}
+		r.Check(len(sites(rj, step.p)) > 0 && !skipped, rule, "revertJournal: every path reaches "+step.name, c.P.Pos(rj.Pos()), "no return before it",
+			"a path through revertJournal returns before "+step.name+": for such a journal entry (e.g. an account created in the block) the storage keys / code written by the block are not removed, and the rolled-back state differs from the state of that height")
+	}
 }
